@@ -301,7 +301,14 @@ class Check:
         kf = [k for k in known_findings() if k["property"] == self.pid]
         kclasses = {k["class"]: k for k in kf}
         seen = set()
+        import re as _re
+        mine = []
         for mf in (rep.get("monitor_failures") or []):
+            m = _re.match(r"^(C\d\d)-", mf["class"])
+            if m and m.group(1) != self.pid:
+                continue  # a shared engine also evaluates the monitors of its other properties
+            mine.append(mf)
+        for mf in mine:
             if mf["class"] in kclasses:
                 if mf["class"] not in seen:
                     seen.add(mf["class"])
@@ -309,7 +316,7 @@ class Check:
             else:
                 self.monitor.append(mf)
         self.oblige("M: property monitor on implementation outputs (%s)" % name,
-                    not [m for m in (rep.get("monitor_failures") or []) if m["class"] not in kclasses],
+                    not [m for m in mine if m["class"] not in kclasses],
                     "")
         return rep
 
